@@ -163,3 +163,38 @@ def ddmin(items, test, max_tests=400, max_seconds=90):
     if len(items) == 1 and tests[0] < max_tests and t([]):
         items = []
     return items
+
+
+def shrink_image_desc(desc, fails, key="image", max_tests=120, min_side=2):
+    """greedy cropping of a (ns, nf) image stored flat in desc[key]; fails(desc) -> bool keeps the violation class"""
+    import time as _time
+    t_end = _time.time() + 60
+    tests = [0]
+    cur = dict(desc)
+
+    def crop(d, r0, r1, c0, c1):
+        ns, nf = d["ns"], d["nf"]
+        im = np.array(d[key]).reshape(ns, nf)[r0:ns - r1, c0:nf - c1]
+        n = dict(d)
+        n["ns"], n["nf"] = im.shape
+        n[key] = im.ravel().tolist()
+        return n
+    progress = True
+    while progress and tests[0] < max_tests and _time.time() < t_end:
+        progress = False
+        for cut in ((0, 1, 0, 0), (1, 0, 0, 0), (0, 0, 0, 1), (0, 0, 1, 0)):
+            ns, nf = cur["ns"], cur["nf"]
+            if (cut[0] + cut[1] and ns <= min_side) or (cut[2] + cut[3] and nf <= min_side):
+                continue
+            # try to remove half of the remaining extent first, then single lines
+            for amount in (max(1, (ns if cut[0] + cut[1] else nf) // 2), 1):
+                c = tuple(x * amount for x in cut)
+                if (ns - c[0] - c[1]) < min_side or (nf - c[2] - c[3]) < min_side:
+                    continue
+                tests[0] += 1
+                cand = crop(cur, *c)
+                if fails(cand):
+                    cur = cand
+                    progress = True
+                    break
+    return cur
